@@ -1005,6 +1005,8 @@ func main() {
 		fmt.Fprintf(&sb, "Definition r_bad_%s := Eval vm_compute in bad_%s cases.\nPrint r_bad_%s.\n", p, p, p)
 		fmt.Fprintf(&sb, "Definition r_badw_%s := Eval vm_compute in badwn_%s cases.\nPrint r_badw_%s.\n", p, p, p)
 	}
+	// evidence only: recorded histories that do NOT satisfy the side conditions of the property's main theorem
+	sb.WriteString("Definition r_thm_C12 := Eval vm_compute in thm_C12 cases.\nPrint r_thm_C12.\n")
 	if err := os.WriteFile(filepath.Join(*out, "cases_SUP.v"), []byte(sb.String()), 0o644); err != nil {
 		panic(err)
 	}
